@@ -292,11 +292,8 @@ impl Check for C08 {
             let b2 = strip_staging(&tree_bytes(&wr, HOST, ROOT_B));
             // no version lost in the sense of C02 (L = last completed run before the crash)
             if let Some((cl, dd)) = lost_version(&ra0, &rb0, &a2, &b2, &last_l, RunKind::Completed) {
-                // known finding of C02 (edited conflict copy) is not a crash-safety matter
-                if cl != "edited-conflict-copy-overwritten" && cl != "conflict-copy-recreated-then-removed-by-planned-delete" {
-                    rep.fail("c08.recovery", "version-lost-after-crash-recovery", format!("kill before mutating call {k}/{n}: {dd}"));
-                    break;
-                }
+                rep.fail("c08.recovery", "version-lost-after-crash-recovery", format!("kill before mutating call {k}/{n}: [{cl}] {dd}"));
+                break;
             }
             if a2 != aref || b2 != bref {
                 let diff: Vec<&String> = aref.keys().chain(a2.keys()).chain(bref.keys()).chain(b2.keys())
